@@ -92,6 +92,19 @@ let geom_of = function
 let range n = List.init n (fun i -> i)
 
 (* ---------- commands ---------- *)
+let hp_of = function
+  | L [S "c"; I v] -> HConst (nat_of_int v)
+  | L [S "t"; L tbl] -> let a = Array.of_list (List.map (fun x -> geti x) tbl) in
+      HFn (fun st -> let i = int_of_nat st in nat_of_int (if i < Array.length a then a.(i) else a.(Array.length a - 1)))
+  | _ -> failwith "hp"
+let kev_of = function
+  | L [S "fwd"; I t] -> Fwd (t <> 0) | L [S "bwd"; I t] -> Bwd (t <> 0) | L [S "step"] -> Step
+  | L [S "reset"] -> ResetBatch | L [S "save"; I i] -> Save (i <> 0)
+  | L [S "load"; I ck; I c] -> Load (nat_of_int ck, c <> 0)
+  | L [S "setfus"; I v] -> SetFus (nat_of_int v) | L [S "setius"; I v] -> SetIus (nat_of_int v)
+  | L [S "fresh"] -> Fresh
+  | _ -> failwith "event"
+
 let run (cmd : string) (a : v) : v =
   match cmd, a with
   | "triu_idx", I n ->
@@ -270,18 +283,7 @@ let run (cmd : string) (a : v) : v =
       let per_rank = List.map (fun micros -> List.map (fun d -> tabm (one d)) (getl micros)) ranks in
       vmat n n (factor_update fops (getf alpha) prev per_rank)
   | "kfac_run", L [I hook; I acc; fus; ius; L events] ->
-      let hp_of = function
-        | L [S "c"; I v] -> HConst (nat_of_int v)
-        | L [S "t"; L tbl] -> let a = Array.of_list (List.map (fun x -> geti x) tbl) in
-            HFn (fun st -> let i = int_of_nat st in nat_of_int (if i < Array.length a then a.(i) else a.(Array.length a - 1)))
-        | _ -> failwith "hp" in
-      let ev = function
-        | L [S "fwd"; I t] -> Fwd (t <> 0) | L [S "bwd"; I t] -> Bwd (t <> 0) | L [S "step"] -> Step
-        | L [S "reset"] -> ResetBatch | L [S "save"; I i] -> Save (i <> 0)
-        | L [S "load"; I ck; I c] -> Load (nat_of_int ck, c <> 0)
-        | L [S "setfus"; I v] -> SetFus (nat_of_int v) | L [S "setius"; I v] -> SetIus (nat_of_int v)
-        | L [S "fresh"] -> Fresh
-        | _ -> failwith "event" in
+      let ev = kev_of in
       let vfid = function FNone -> S "none" | FVer (o, us) -> L [vnat o; vlist (fun (a, b) -> L [vnat a; vnat b]) us] in
       let vopt = function None -> S "none" | Some n -> vnat n in
       let vact = function
@@ -347,6 +349,22 @@ let run (cmd : string) (a : v) : v =
       L [ L saved_view;
           L (List.map (fun r -> L (List.filter_map (fun n -> match after (nat_of_int r) (nat_of_int n) with Some t -> Some (L [I n; vnat t]) | None -> None) names)) (range w));
           L (List.map (fun r -> L (List.filter_map (fun n -> if recomputes fwf sl g (compute <> 0) (nat_of_int r) (nat_of_int n) then Some (I n) else None) names)) (range w)) ]
+  | "kfac_comm", L [I w; I k; I meth; I sym; I fsz; L layers; I cap; I hook; I acc; fus; ius; L hevs] ->
+      (* returns [members, per-rank issues [[g, kind, numel, root+1]...], global order] *)
+      let c = { pW = nat_of_int w; pk = nat_of_int k; pmeth = (match meth with 0 -> EigenPlain | 1 -> EigenPrediv | _ -> InverseM);
+                psym = (sym <> 0); pfsz = nat_of_int fsz; pisz = nat_of_int fsz } in
+      let ls = List.map (function L [I a; I g; I wa; I wg] -> { na = nat_of_int a; ng = nat_of_int g; wa = nat_of_int wa; wg = nat_of_int wg } | _ -> failwith "player") layers in
+      let cfg = { c_hook = (hook <> 0); c_acc = nat_of_int acc; c_fus0 = hp_of fus; c_ius0 = hp_of ius } in
+      let capo = if cap < 0 then None else Some (nat_of_int cap) in
+      let hev = function
+        | L [S "user"; L ns] -> HUser (List.map (fun x -> nat_of_int (geti x)) ns)
+        | L [S "flush"] -> HFlush
+        | e -> HK (kev_of e) in
+      let h = List.map hev hevs in
+      let vinst i = L [vnat i.igrp; vnat i.ikind; vnat i.inumel; vnat i.iroot] in
+      L [ vlist (vlist vnat) (kmembers c);
+          L (List.map (fun r -> vlist vinst (kfac_issues cfg c capo ls (nat_of_int r) h)) (range w));
+          vlist vinst (kfac_order cfg c capo ls h) ]
   | "neox_ckpt_comm", L [I dir] ->
       L [ L (List.map vnat (save_comm (dir <> 0))); L (List.map vnat (load_comm (dir <> 0))) ]
   | _ -> failwith ("unknown command or bad argument: " ^ cmd)
